@@ -5,7 +5,7 @@ import (
 	"google.golang.org/protobuf/encoding/protowire"
 )
 
-var vfLen, vfLen2, vfMode, vfWide int
+var vfLen, vfLen2, vfMode, vfWide, vfK int
 
 func wide(i int) bool { return (vfWide>>uint(i))&1 == 1 }
 func u64(i int) uint64 {
@@ -48,10 +48,11 @@ func mkM() M {
 	for i := 0; i < vfLen2; i++ {
 		m.R = append(m.R, int32(i64(4)))
 	}
-	if vfBool() {
-		m.P = &Inner{X: int32(int8(vfByte())), Y: vfString(vfLen)}
-	}
-	if vfBool() { // one or two non-zero bytes, the last one among them
+	if vfK == 0 {
+		if vfBool() {
+			m.P = &Inner{X: int32(int8(vfByte())), Y: vfString(vfLen)}
+		}
+	} else { // the byte-array field: one or two non-zero bytes, the last one among them (units with vfK=1 leave P nil)
 		m.K[vfIntIn(0, 6)] = vfByte()
 		m.K[6] = vfByte()
 	}
